@@ -157,8 +157,14 @@ class Env:
             a = args[0]
             vals = self.w[name]
             if "*" in a:
-                if a[0] == "*" and len(a) > 1:          # well list name
-                    names = self.wlists.get(a, [])
+                if a[0] == "*" and len(a) > 1:          # well list name ...
+                    if a in self.wlists:
+                        names = self.wlists[a]
+                    else:                               # ... or a template over list names: union of the matching lists
+                        names = []
+                        for ln in self.wlists:
+                            if fnmatch.fnmatchcase(ln[1:], a[1:]):
+                                names += [w for w in self.wlists[ln] if w not in names]
                 else:                                   # well name template; '\*X' = template starting with '*'
                     patt = a[1:] if a[0] == "\\" else a
                     names = [w for w in sorted(vals) if fnmatch.fnmatchcase(w, patt)]
@@ -446,7 +452,7 @@ def build_a(data):
             p = pattern()
             lhs = [s.pick(wvars), quote(p, s.below(4) > 0)]
         else:
-            ln = s.pick(lnames + ["*NONE"])
+            ln = s.pick(lnames + ["*NONE"] + (["*LI*", "*L*", "*P*D", "*E*", "*LI?"] if s.below(3) == 0 else []))
             lhs = [s.pick(wvars), quote(ln, s.below(2) == 0)]
         rhs = scalar_quantity() if s.below(5) == 0 else [number()]
         return lhs + [op] + rhs
